@@ -550,6 +550,9 @@ func impl(c Case) string {
 		case "wsas":
 			return errAs(xerrors.WithStack(buildErr(a[0])), a[1])
 		}
+		if out, ok := implMore(c); ok {
+			return out
+		}
 		return "bad-op"
 	})
 }
@@ -781,9 +784,9 @@ func randErr(r *vlib.Rand) string {
 	return e
 }
 
-var fnNames = []string{"chunk", "removeunordered", "reverse", "partition", "unique", "uniqueinplace", "runs", "shrink",
+var fnNames = append([]string{"chunk", "removeunordered", "reverse", "partition", "unique", "uniqueinplace", "runs", "shrink",
 	"search", "lesscompare", "merge", "mergeslices", "mink", "union", "intersection", "intersects", "difference",
-	"mapreverse", "reversesingle", "toindex", "fromkv", "abs", "clamp", "extras", "withstack", "wsws", "wsunwrap", "unwrap", "is", "wsis", "as", "wsas"}
+	"mapreverse", "reversesingle", "toindex", "fromkv", "abs", "clamp", "extras", "withstack", "wsws", "wsunwrap", "unwrap", "is", "wsis", "as", "wsas"}, moreFns...)
 
 func genCase(r *vlib.Rand, fn string, big bool) Case {
 	I := strconv.Itoa
@@ -912,6 +915,9 @@ func genCase(r *vlib.Rand, fn string, big bool) Case {
 	case "as", "wsas":
 		return Case{fn, []string{randErr(r), []string{"s", "w", "l1", "l2", "l3", "l4"}[r.Intn(6)]}}
 	}
+	if c, ok := genMore(r, fn, n); ok {
+		return c
+	}
 	return Case{fn, nil}
 }
 
@@ -988,6 +994,7 @@ func exhaustive(run *runner, maxLen int, deadline time.Time) bool {
 		for _, cl := range classes {
 			add(Case{"runs", []string{el, cl}})
 		}
+		exhaustiveMore(l, preds, classes, add)
 		for idx := -2; idx <= n+2; idx++ {
 			for k := -2; k <= n+2; k++ {
 				add(Case{"removeunordered", []string{el, I(idx), I(k)}})
@@ -1088,6 +1095,9 @@ func exhaustive(run *runner, maxLen int, deadline time.Time) bool {
 	for _, a := range []string{"0", "1"} {
 		for _, b := range []string{"0", "1"} {
 			add(Case{"lesscompare", []string{a, b}})
+			for _, fn := range []string{"greater", "lessorequal", "greaterorequal", "sortequal"} {
+				add(Case{fn, []string{a, b}})
+			}
 		}
 	}
 	for x := -130; x <= 130; x++ {
@@ -1101,6 +1111,7 @@ func exhaustive(run *runner, maxLen int, deadline time.Time) bool {
 			add(Case{"abs", []string{I(w), strconv.FormatInt(d-1, 10)}})
 		}
 	}
+	exhaustiveMoreScalars(maxLen, add)
 	for x := -3; x <= 3; x++ {
 		for lo := -3; lo <= 3; lo++ {
 			for hi := -3; hi <= 3; hi++ {
@@ -1167,7 +1178,8 @@ func parseCase(line string) (Case, bool) {
 
 func main() {
 	env := vlib.GetEnv()
-	res := vlib.NewResult("C19", "one case = one call of one helper (31 sub-commands over xslices, xsort, xmaps, xmath, xerrors; extras = the 40 thin wrappers / one-line combinators checked by monitors only); "+
+	res := vlib.NewResult("C19", "one case = one call of one helper (73 sub-commands, one per exported helper of xslices, xsort, xmaps, xmath, xerrors, each compared with its Lean model; "+
+		"extras = the documentation monitors of the 42 small loops / thin wrappers on one input; slices with spare capacity (cap = len, len+1, len+3, ...) for the in-place and aliasing effects); "+
 		"random cases with lengths 0..1000, arguments in [-2, len+2], orders with ties (key = x/c, optionally reversed), predicate and "+
 		"equivalence-class tables, error chains incl. already wrapped / fmt.Errorf(%w) / non-comparable leaves; plus the corpus; "+
 		"non-trivial = the arguments hold at least 3 list elements / chain links (always for abs, clamp, chunk, shrink); distinct = different protocol line. "+
